@@ -757,6 +757,11 @@ def directed(rng):
         ('prec', ('bin', '/', ('bin', '/', n(v2 * 12), n(v3)), n(2))),
         ('prec', ('bin', '-', n(v2), ('bin', '-', n(v1), n(v3)))),
         ('prec', ('bin', '*', ('neg', ('id', x)), n(v3))),
+        # every position of a conditional takes a whole | expression: c ? a : x | y is c ? a : (x | y)
+        ('prec', ('tern', ('bool', v1 % 2 == 0), n(v2), ('bin', '|', n(0), n(v3)), '?')),
+        ('prec', ('tern', ('bool', v1 % 2 == 1), ('bin', '|', n(0), n(v3)), ('bin', '|', ('bool', False), n(v2)), '?')),
+        ('prec', ('tern', ('bin', '|', ('bool', False), ('bool', v1 % 2 == 0)), ('bin', '&', n(v1), n(v2)), ('bin', '&', n(v3), n(v2)), '?')),
+        ('prec', ('tern', ('bin', '|', ('bool', v1 % 2 == 0), ('bool', False)), ('bin', '|', n(0), n(v2)), ('bin', '|', n(0), n(v3)), 'if')),
         # an amount that displays as zero without being zero, under a truth test: the printed
         # text re-lexes its literals with KEEP_PREC, which changes the display-zero test
         ('dispzero', ('bin', '&', ('bin', '*', ('bin', '*', ('lit', Lit(str(v1), 2, ('$', 'pre'))), ('lit', Lit(str(v3), 2, ('$', 'pre')))),
@@ -1207,7 +1212,15 @@ def search(ctx, broken):
 def replay(ctx, obj):
     res = lib.Result()
     case = obj.get('case') or {}
-    if 'expr' in case:
+    if 'expr' in case and str(obj.get('key', '')).startswith('tree:'):
+        path = ctx.path('replay.dat')
+        open(path, 'w').write(case.get('journal', ''))
+        out = lib.run_repl(path, ["parse ' %s'" % case['expr']])
+        got = canon_text(text_as_parsed(out[0]))
+        print('replay: %s is parsed as %s (required %s)' % (case['expr'], got, obj.get('required')))
+        if got != obj.get('required'):
+            res.violations.append(dict(key=obj['key'], desc=obj['desc']))
+    elif 'expr' in case:
         path = ctx.path('replay.dat')
         open(path, 'w').write(case.get('journal', ''))
         text = case.get('printed') or case['expr']
